@@ -252,6 +252,11 @@ func CollationRegistry(prop, tier string) []UniverseDef {
 				add(sp, und, kt, false)
 			}
 		}
+		// digit runs under the ROOT collator only: with the numeric option a digit run collates as one element (its length first),
+		// which is a contraction in all but name and outside the property; the pinned tree misses "item10" for Prefix("item1") there
+		digits := CollSpec{Name: "PFX-DIGITS", Prefix: true, Free: []string{"item1", "item10", "item100", "item2", "item", "itemA", "item01"}, Probes: []string{"item3"},
+			Prefixes: []string{"item1", "item10", "item", "item2", "item0", "item3", "ite"}}
+		add(digits, und, "string", false)
 		return out
 	}
 	if prop == "C14" || prop == "C15" {
